@@ -41,14 +41,6 @@ type fileRec struct {
 
 func (f *fileRec) Key() string { return f.Kind + "/" + f.Hash }
 func (f *fileRec) cost() int64 { return lib.RoundUp4k(f.DiskLen) }
-func (f *fileRec) has(tag string) bool {
-	for _, t := range f.Tags {
-		if t == tag {
-			return true
-		}
-	}
-	return false
-}
 
 func (f *fileRec) String() string {
 	return fmt.Sprintf("#%d %s/%s.. %s/%s by %s rel=%s logical=%d disk=%d cost=%d atime=%s",
@@ -154,7 +146,7 @@ func pickSize(rng *rand.Rand, kind string) int {
 	}
 	switch x := rng.IntN(100); {
 	case x < 12:
-		return 1 + rng.IntN(100)
+		return minCasSize + rng.IntN(100)
 	case x < 25:
 		return 100 + rng.IntN(3900)
 	case x < 40:
@@ -169,6 +161,26 @@ func pickSize(rng *rand.Rand, kind string) int {
 		return lib.MiB + 1 + rng.IntN(200000) // two chunks
 	default:
 		return 2*lib.MiB + 4097
+	}
+}
+
+// CAS keys are content hashes, and lru.removed events are routed to cases by
+// key, so every CAS blob of a run must be unique across all (concurrent)
+// cases. Blobs of a few bytes cannot carry the case tag; they are not used.
+const minCasSize = 8
+
+var runKeys sync.Map // "cas/<hash>" -> true, all CAS blobs generated in this process
+
+// uniqueBlob generates content whose CAS key no other blob of this run has.
+func uniqueBlob(rng *rand.Rand, size int, kind, tag string) []byte {
+	if size < minCasSize {
+		size = minCasSize
+	}
+	for i := 0; ; i++ {
+		b := lib.GenBlob(rng, size, kind, fmt.Sprintf("%s.%d", tag, i))
+		if _, dup := runKeys.LoadOrStore("cas/"+lib.Sha256Hex(b), true); !dup {
+			return b
+		}
 	}
 }
 
@@ -358,7 +370,11 @@ func genPopulation(rng *rand.Rand, tag string) *population {
 		f.Kind = weighted(rng, "cas", 60, "ac", 25, "raw", 15)
 		f.Layout = newLayout()
 		ck := weighted(rng, "random", 40, "text", 25, "repetitive", 20, "zero", 15)
-		f.Content = lib.GenBlob(rng, pickSize(rng, f.Kind), ck, fmt.Sprintf("%s-f%d", tag, id))
+		if f.Kind == "cas" {
+			f.Content = uniqueBlob(rng, pickSize(rng, f.Kind), ck, fmt.Sprintf("%s-f%d", tag, id))
+		} else {
+			f.Content = lib.GenBlob(rng, pickSize(rng, f.Kind), ck, fmt.Sprintf("%s-f%d", tag, id))
+		}
 		if f.Kind == "cas" {
 			f.Hash = lib.Sha256Hex(f.Content)
 			f.Enc = casEnc(f.Layout)
